@@ -44,3 +44,15 @@ def results {α β : Type} (g : α → β) (chunks : List (List α)) : List (Nat
   (List.range chunks.length).zip (chunks.map (List.map g))
 
 end TFV.Split
+
+namespace TFV.Split
+
+/-- `_get_fitness`: the objective is applied to the whole population (serial) or chunk by chunk
+    (`n_jobs > 1`), the values are concatenated in chunk order, and THEN the sign is applied:
+    `fitness = sign * value`, one point for both branches. `calls` is `len(value)`. -/
+def getFitness {α : Type} (parallel : Bool) (minimization : Bool) (f : α → Int) (pop : List α)
+    (cs : List Nat) : List Int × Nat :=
+  let value : List Int := if parallel then ((split pop cs).map (List.map f)).flatten else pop.map f
+  (value.map fun v => if minimization then -v else v, value.length)
+
+end TFV.Split
